@@ -214,7 +214,9 @@ func tAfterName(c context, s []byte) (context, int) {
 		return c, len(s)
 	} else if s[i] != '=' {
 		// Occurs due to tag ending '>', and valueless attribute.
-		c.state = stateTag
+		// The attribute is over: a "=" found later, after a "/" or a template
+		// node, does not introduce its value.
+		c.state, c.attr = stateTag, attr{}
 		return c, i
 	}
 	c.state = stateBeforeValue
